@@ -37,15 +37,16 @@ BBodies == { <<>>, <<FA>>, <<FA, FB>>, <<GT>>, <<GN>>, <<VX, GX>>, <<Child("")>>
              <<Child("n"), Child("n")>>, <<Child("n"), Child("m")>>, <<Child(""), Child("n")>>, <<FA, Child("n"), GT>>,
              <<SDef("c", "", <<SDef("a", "n", <<GN>>)>>)>>, <<Boom>>, <<FA, Boom>>,
              <<Child0("n"), Child("m")>>, <<Child0(""), Child("n")>>, <<Child0("n")>>, <<FC, Child0("")>>, <<FC, Child("n")>>,
-             <<SDef("c", "n", <<Child0("")>>), SDef("c", "m", <<SDef("a", "", <<FA>>)>>)>> }
-TopB == { SDef(t, nm, b) : t \in {"a", "b"}, nm \in {"", "n"}, b \in BBodies } \cup { Boom, SPrint(L1) }
+             <<SDef("c", "n", <<Child0("")>>), SDef("c", "m", <<SDef("a", "", <<FA>>)>>)>>,
+             <<SExpr(Asg("TYPE", L1)), GT>>, <<SExpr(Asg("NAME", L2)), GN, SDef("c", "n", <<GN, GT>>)>> }   \* fields named TYPE / NAME never shadow the built-ins
+TopB == { SDef(t, nm, b) : t \in {"a", "b"}, nm \in {"", "n"}, b \in BBodies } \cup { Boom, SPrint(L1), SBind("b", "last", "struct"), SBind("a", "all", "slice") }
 
 \* ---- bind family (C04)
 BDef == { SDef(t, nm, <<SExpr(Asg("f", L1))>>) : t \in {"a", "b"}, nm \in {"", "n"} }
 BBind == { SBind(t, sel, tgt) : t \in {"a"}, sel \in {"none", "one", "first", "last", "all", "bogus"}, tgt \in {"struct", "slice", "bogus"} }
 BItem == BDef \cup BBind
 \* bindmany: many blocks of the bound type (distinct names, distinct field values) around one or two valid binds
-MDef(i) == SDef(IF i = 4 THEN "b" ELSE "a", CASE i = 1 -> "n" [] i = 2 -> "m" [] i = 3 -> "x" [] i = 4 -> "y" [] OTHER -> "z", <<SExpr(Asg("f", Lit(IntV(i))))>>)
+MDef(i) == SDef(IF i \in {2, 5} THEN "b" ELSE "a", CASE i = 1 -> "n" [] i = 2 -> "m" [] i = 3 -> "x" [] i = 4 -> "y" [] OTHER -> "z", <<SExpr(Asg("f", Lit(IntV(i))))>>)
 MBind == { SBind("a", sel, tgt) : sel \in {"none", "one", "first", "last", "all"}, tgt \in {"struct", "slice"} }
 
 RECURSIVE CountKind(_, _)
@@ -70,7 +71,7 @@ BiItem == Scope = "bind" /\ SeqItem(BItem)
 \* the i-th definition is MDef(number of definitions so far + 1): names never repeat, so every block is identifiable
 BmItem == /\ Scope = "bindmany" /\ phase < MaxItems
           /\ \/ prog' = Append(prog, MDef(CountKind(prog, "def") + 1))
-             \/ CountKind(prog, "bind") < 2 /\ \E b \in MBind : prog' = Append(prog, b)
+             \/ CountKind(prog, "bind") < 3 /\ \E b \in MBind : prog' = Append(prog, b)
           /\ phase' = phase + 1 /\ UNCHANGED <<body, last>>
 Next == ScFirst \/ ScItem \/ ScBodyDone \/ ScLast \/ BlItem \/ BiItem \/ BmItem
 Spec == Init /\ [][Next]_vars
